@@ -281,6 +281,9 @@ type fakeStore struct {
 	// honourCancel makes a healthy stream behave like a gRPC stream: once its context is cancelled
 	// Recv fails with the context's error (used by the C06 cancellation test only).
 	honourCancel bool
+	// lastFramePause delays the delivery of the last frame before a stall, so that the stalling Recv
+	// (and with it the proxy's frame timer of this store) starts later than the other stores' Recvs.
+	lastFramePause time.Duration
 
 	mu          sync.Mutex
 	calls       []*storepb.SeriesRequest
@@ -388,6 +391,9 @@ func (c *fakeSeriesClient) Recv() (*storepb.SeriesResponse, error) {
 		case p >= pauseSleepMin:
 			time.Sleep(time.Duration(p-1) * 50 * time.Microsecond)
 		}
+	}
+	if f.kind == faultStall && c.st.lastFramePause > 0 && c.i == f.after-1 {
+		time.Sleep(c.st.lastFramePause)
 	}
 	r := c.frames[c.i]
 	c.i++
